@@ -149,40 +149,49 @@ def _analyse(ctx, R, name, partial_parser=False, request=False):
                   bad_desc="partial parser fails on a prefix that ends before the %s (returns %s instead of need-more)" % (
                       "version" if any("Version" in m for m in missing) else "status", missing))
 
-    # field copy loop: Builder::header post-dominates the loop body (every element is appended), or is
-    # guarded only by the emptiness test of the partial parser
-    heads = sorted(b.loop_heads())
+    # field copy loop (in the parser or in a local helper it calls): the append post-dominates the loop
+    # body (every element is appended); only the partial parser may guard it with the emptiness test
+    from .panics import reachable_from
     ok_loop = False
     guard_ok = not partial_parser
-    for h in heads:
-        hb = [bb for bb, t in b.calls() if short(callee_path(t) or "").endswith("Builder::header")]
+    guarded = False
+    for lb in [x for x in reachable_from(prog, [b]) if not x.is_derived and x.kind != "Closure"]:
+        hb = [bb for bb, t in lb.calls() if short(callee_path(t) or "").endswith("Builder::header")]
         if not hb:
             continue
-        pd = b.postdominators(exits=[h] + b.return_blocks())
-        nexts = [bb for bb, t in b.calls() if short(callee_path(t) or "").endswith("::next")]
-        for nb in nexts:
-            # the Some arm of the iterator's result
-            some_targets = []
-            sw = b.successors(nb)
-            for s_ in sw:
-                t = b.blocks[s_]["term"]
-                if t["k"] == "switch":
-                    some_targets = [tb for v, tb in t["targets"] if int(v) == 1]
-            for st_ in some_targets:
-                if any(x in pd.get(st_, set()) for x in hb):
-                    ok_loop = True
-                elif partial_parser:
-                    # allowed: guard = is_empty tests, both must precede the append
-                    calls_between = [short(callee_path(b.blocks[x]["term"]) or "") for x in range(len(b.blocks))
-                                     if b.blocks[x]["term"]["k"] == "call"]
-                    if sum(1 for c in calls_between if c.endswith("is_empty")) >= 2:
+        for h in sorted(lb.loop_heads()):
+            pd = lb.postdominators(exits=[h] + lb.return_blocks())
+            nexts = [bb for bb, t in lb.calls() if short(callee_path(t) or "").endswith("::next")]
+            for nb in nexts:
+                some_targets = []
+                for s_ in lb.successors(nb):
+                    t = lb.blocks[s_]["term"]
+                    if t["k"] == "switch":
+                        some_targets = [tb for v, tb in t["targets"] if int(v) == 1]
+                for st_ in some_targets:
+                    if any(x in pd.get(st_, set()) for x in hb):
                         ok_loop = True
-                        dom = b.dominators()
-                        empt = [bb for bb, t in b.calls() if short(callee_path(t) or "").endswith("is_empty")]
-                        guard_ok = all(any(e in dom.get(x, set()) for e in empt) for x in hb)
-    ctx.check(ok_loop, R, "copy-loop:" + name,
+                    else:
+                        guarded = True
+                        empt = [bb for bb, t in lb.calls() if short(callee_path(t) or "").endswith("is_empty")]
+                        dom = lb.dominators()
+                        if partial_parser and len(empt) >= 2:
+                            ok_loop = True
+                            guard_ok = all(any(e in dom.get(x, set()) for e in empt) for x in hb)
+    # the loop must iterate the tokeniser's field slice itself, not a filtered / truncated view of it
+    partial_views = []
+    if not partial_parser:
+        for lb in [x for x in reachable_from(prog, [b]) if not x.is_derived]:
+            for bb, t in lb.calls():
+                pth = short(callee_path(t) or "")
+                if pth.split("::")[-1] in ("take_while", "filter", "skip_while", "filter_map", "take", "step_by", "map_while", "skip"):
+                    partial_views.append("%s in %s" % (pth, lb.short))
+    ctx.check(not partial_views, R, "all-fields:" + name, "%s: the copy loop runs over all parsed fields (no filtering / truncating adaptor)" % name,
+              loc=body_loc(b), detail=partial_views[:3])
+    ctx.check(ok_loop and not (guarded and not partial_parser), R, "copy-loop:" + name,
               "%s: every parsed field is appended to the message (the append post-dominates the loop body%s)" % (
-                  name, "; partial parser: stops at the first half-parsed field" if partial_parser else ""), loc=body_loc(b))
+                  name, "; partial parser: stops at the first half-parsed field" if partial_parser else ""), loc=body_loc(b),
+              bad_desc="%s: a parsed field can be skipped (the append does not post-dominate the loop body: fields after it are lost)" % name)
     if partial_parser:
         ctx.check(guard_ok, "R20.7", "half-field-guard:" + name, "the emptiness guard dominates the append (no half-parsed field is reported)", loc=body_loc(b))
     # name and value of one append come from the same element
